@@ -96,7 +96,7 @@ def main():
             "guard": "cicada_verif",
             "enable": "RUSTFLAGS=\"--cfg cicada_verif\" (set by drive/common.py and harness/.cargo/config.toml)",
             "baseline_off_cmd": "cd /repo && cargo test --workspace --no-fail-fast --offline",
-            "source_commits": ["c75e109", "e586def"],
+            "source_commits": ["c75e109", "303b975"],
             "add_only": True,
         },
         "engines": [{"name": "coq-model+correspondence", "path": "/verif/check",
